@@ -241,12 +241,13 @@ func c11EmptyVersion(c *Ctx) {
 	ov := mustField(c, "kv", "OpenOptions", "OnlyVersions")
 	if open != nil && listRoots != nil && ov != nil {
 		n := 0
-		for _, call := range an.Calls(open) {
+		osc := c.Scope(open)
+		for _, call := range osc.Calls() {
 			if call.Common().StaticCallee() != listRoots {
 				continue
 			}
 			n++
-			g := an.GuardedByNilTest(an.Edge{From: call.Block()}, func(v ssa.Value) bool { return an.FieldOfLoad(v) == ov }, true)
+			g := an.GuardedByNilTest(an.Edge{From: call.Block()}, func(v ssa.Value) bool { return an.FieldOfLoad(osc.ArgOfParam(v)) == ov }, true)
 			c.R.Cond(g, rule, "kv.Open: lists current/ only when OnlyVersions is nil", c.P.Pos(call.Pos()),
 				"listing is chosen by 'OnlyVersions == nil'", "the choice between listing current/ and opening the given versions is not a nil test of OnlyVersions: the empty list [] (version of an empty table) would be opened as 'whatever is current'")
 		}
